@@ -2,6 +2,8 @@
 import NxsModel.Pad
 import NxsModel.Dispatch
 import NxsModel.Lemmas.Accept
+import NxsModel.Lemmas.Serial
+import NxsModel.Spec.Wire
 namespace Nxs.Pad
 open Nxs Nxs.Spec Nxs.Serial Nxs.Dispatch
 
@@ -95,5 +97,68 @@ theorem recvHandle_dataAlign (p : Nat) (w : Bytes) (h : recvHandle w ≠ .ignore
 
 theorem recvHandle_zeros (k : Nat) : recvHandle (List.replicate k (0 : Byte)) = .ignored := by
   rw [recvHandle_eq, hdrFind_zeros]
+
+/-! ### well-formed (wire) frames through the interface and the dispatcher
+
+  (The same facts are proved in `Lemmas/Dummy.lean`, which imports this file; they are repeated here so that
+  C17's own theorem about the client's requests does not depend on the simulated-device model.) -/
+
+theorem hdrFind_wire (fid : Nat) (pl : Bytes) : hdrFind (wire fid pl) = some 0 := by
+  unfold hdrFind
+  have : wire fid pl = (0x55 : Byte) :: ((wire fid pl).drop 1) := rfl
+  rw [this]
+  simp [List.findIdx_cons, Gen.Frame.sof]
+
+/-- the dispatcher, given a wire frame, hands id and payload to the callback table -/
+theorem recvHandle_wire (fid : Nat) (pl : Bytes) (hp : pl.length ≤ 65529) (hf : fid ≤ 8) :
+    recvHandle (wire fid pl) = cbHandle fid pl := by
+  rw [recvHandle_eq, hdrFind_wire]
+  show (match frameDecode ((wire fid pl).drop 0) with
+    | .ok fr => cbHandle fr.fid fr.data
+    | .error _ => Disp.ignored) = _
+  rw [List.drop_zero, frameDecode_wire fid pl hp hf]
+
+theorem cbHandle_ne_ignored (fid : Nat) (pl : Bytes) : cbHandle fid pl ≠ .ignored := by
+  unfold cbHandle
+  split
+  · simp
+  · split <;> split <;> simp
+
+theorem recvHandle_wire_ne_ignored (fid : Nat) (pl : Bytes) (hp : pl.length ≤ 65529) (hf : fid ≤ 8) :
+    recvHandle (wire fid pl) ≠ .ignored := by
+  rw [recvHandle_wire fid pl hp hf]; exact cbHandle_ne_ignored _ _
+
+/-- a wire frame written with any write padding is dispatched exactly like the frame alone -/
+theorem recvHandle_wire_align (p fid : Nat) (pl : Bytes) (hp : pl.length ≤ 65529) (hf : fid ≤ 8) :
+    recvHandle (dataAlign p (wire fid pl)) = recvHandle (wire fid pl) :=
+  recvHandle_dataAlign p _ (recvHandle_wire_ne_ignored fid pl hp hf)
+
+/-! the callback table on the five request ids -/
+theorem cb_cmninfo : cbHandle 2 [] = .fired 0 [] := by decide
+theorem cb_chinfo (c : Byte) : cbHandle 3 [c] = .fired 1 [c] := by
+  simp [cbHandle, Gen.Recv.cbTable, Gen.Ids.idCMNINFO, Gen.Ids.idCHINFO, List.find?]
+theorem cb_start (b : Byte) : cbHandle 5 [b] = .fired 4 [b] := by
+  simp [cbHandle, Gen.Recv.cbTable, Gen.Ids.idCMNINFO, Gen.Ids.idCHINFO, Gen.Ids.idSTART, List.find?]
+theorem cb_enable (pl : Bytes) (h : pl ≠ []) : cbHandle 6 pl = .fired 2 pl := by
+  have : pl.length ≠ 0 := by simpa using h
+  simp [cbHandle, Gen.Recv.cbTable, Gen.Ids.idCMNINFO, Gen.Ids.idCHINFO, Gen.Ids.idSTART, Gen.Ids.idENABLE, List.find?, this]
+theorem cb_div (pl : Bytes) (h : pl ≠ []) : cbHandle 7 pl = .fired 3 pl := by
+  have : pl.length ≠ 0 := by simpa using h
+  simp [cbHandle, Gen.Recv.cbTable, Gen.Ids.idCMNINFO, Gen.Ids.idCHINFO, Gen.Ids.idSTART, Gen.Ids.idENABLE,
+    Gen.Ids.idDIV, List.find?, this]
+
+/-- what the interface hands to `_write` for a request whose builder returned the wire frame `(fid, pl)` that the
+    callback table maps to callback `cb`: the frame followed by fewer than `p` zeros up to a multiple of `p`; the
+    dispatcher fires `cb` with exactly `pl` on the frame alone and on what was written -/
+theorem written_wire (r : ClientReq) (p fid cb : Nat) (pl : Bytes) (hb : r.build = .ok (wire fid pl))
+    (hp : pl.length ≤ 65529) (hf : fid ≤ 8) (hcb : cbHandle fid pl = .fired cb pl) :
+    ∃ f k, r.build = .ok f ∧ r.written p = .ok (f ++ List.replicate k 0) ∧
+      (p = 0 → k = 0) ∧ (p > 0 → k < p ∧ p ∣ f.length + k) ∧
+      recvHandle f = .fired cb pl ∧ recvHandle (f ++ List.replicate k 0) = .fired cb pl := by
+  obtain ⟨k, h0, h1, hk⟩ := dataAlign_spec p (wire fid pl)
+  have hw : recvHandle (wire fid pl) = .fired cb pl := by rw [recvHandle_wire fid pl hp hf, hcb]
+  refine ⟨wire fid pl, k, hb, ?_, h0, h1, hw, ?_⟩
+  · unfold ClientReq.written; rw [hb]; simp only; rw [hk]
+  · rw [← hk, recvHandle_wire_align p fid pl hp hf, hw]
 
 end Nxs.Pad
